@@ -205,17 +205,15 @@ Proof.
 Qed.
 
 (** feature data follows the link type: tagged -> the same rule on the feature array; untagged, indexed -> whole *)
-Lemma nd_add_zeros : forall shape, (forall s, In s shape -> 0 <= s < two64) ->
-  nd_add (zrepeat 0 (zlen shape)) shape = shape.
+Lemma view_outside_whole : forall shape, (forall s, In s shape -> 0 <= s < two64) ->
+  view_outside shape (zrepeat 0 (zlen shape)) shape = false.
 Proof.
   induction shape as [|s shape IH]; intro H; [reflexivity|].
-  unfold zrepeat, zlen. cbn [List.length]. rewrite Nat2Z.id. cbn [repeat nd_add].
-  rewrite u64_add_small by (pose proof (H s (or_introl eq_refl)); lia). f_equal.
-  specialize (IH (fun s' Hs' => H s' (or_intror Hs'))). unfold zrepeat, zlen in IH. rewrite Nat2Z.id in IH. exact IH.
+  unfold zrepeat, zlen. cbn [List.length]. rewrite Nat2Z.id. cbn [repeat view_outside].
+  pose proof (H s (or_introl eq_refl)) as Hs. rewrite u64_sub_small by lia.
+  specialize (IH (fun s' Hs' => H s' (or_intror Hs'))). unfold zrepeat, zlen in IH. rewrite Nat2Z.id in IH. rewrite IH.
+  replace (0 >? s) with false by lia. replace (s >? s - 0) with false by lia. reflexivity.
 Qed.
-
-Lemma any_gt_refl : forall l, any_gt l l = false.
-Proof. induction l as [|x l IH]; [reflexivity|]. cbn [any_gt]. rewrite IH. replace (x >? x) with false by lia. reflexivity. Qed.
 
 Lemma whole_ok a : (forall s, In s (a_shape a) -> 0 <= s < two64) ->
   whole a = Ok (zrepeat 0 (zlen (a_shape a)), a_shape a).
@@ -223,7 +221,7 @@ Proof.
   intro H. unfold whole, mkDataView.
   replace (zlen (zrepeat 0 (zlen (a_shape a))) =? zlen (a_shape a)) with true
     by (symmetry; apply Z.eqb_eq; unfold zlen; rewrite zrepeat_length; lia).
-  rewrite Z.eqb_refl. cbn [negb]. rewrite (nd_add_zeros _ H), any_gt_refl. reflexivity.
+  rewrite Z.eqb_refl. cbn [negb]. rewrite (view_outside_whole _ H). reflexivity.
 Qed.
 
 Theorem feature_dispatch B t f m :
@@ -508,21 +506,14 @@ Qed.
 
 (** indexed features return slice i along the first dimension; an index beyond the positions or beyond the
     feature array is out of bounds *)
-Lemma all_lt_pad : forall rest, (forall s, In s rest -> 1 <= s < two64) ->
-  all_lt (map (fun x => u64_sub x 1) (nd_add (zrepeat 0 (zlen rest)) rest)) rest = true.
+Lemma extent_in_data_pad : forall rest, (forall s, In s rest -> 1 <= s < two64) ->
+  extent_in_data rest (zrepeat 0 (zlen rest)) rest = true.
 Proof.
   induction rest as [|s rest IH]; intro H; [reflexivity|].
-  unfold zrepeat, zlen. cbn [List.length]. rewrite Nat2Z.id. cbn [repeat nd_add map all_lt].
-  pose proof (H s (or_introl eq_refl)) as Hs.
-  rewrite u64_add_small by lia. rewrite u64_sub_small by lia.
+  unfold zrepeat, zlen. cbn [List.length]. rewrite Nat2Z.id. cbn [repeat extent_in_data].
+  pose proof (H s (or_introl eq_refl)) as Hs. rewrite u64_sub_small by lia.
   specialize (IH (fun s' Hs' => H s' (or_intror Hs'))). unfold zrepeat, zlen in IH. rewrite Nat2Z.id in IH. rewrite IH.
-  replace (0 + s - 1 <? s) with true by lia. reflexivity.
-Qed.
-
-Lemma any_gt_pad : forall rest, (forall s, In s rest -> 1 <= s < two64) ->
-  any_gt (nd_add (zrepeat 0 (zlen rest)) rest) rest = false.
-Proof.
-  intros rest H. rewrite nd_add_zeros by (intros s Hs; specialize (H s Hs); lia). apply any_gt_refl.
+  replace (s <? 1) with false by lia. replace (0 >=? s) with false by lia. replace (s >? s - 0) with false by lia. reflexivity.
 Qed.
 
 Theorem indexed_slice_spec (data : darray) s0 rest i : a_shape data = s0 :: rest ->
@@ -533,20 +524,21 @@ Proof.
   assert (E1 : nd_set (zrepeat 0 (zlen (s0 :: rest))) 0 i = Ok (i :: zrepeat 0 (zlen rest))).
   { unfold nd_set, nthZ, zrepeat, zlen. cbn [List.length]. rewrite !Nat2Z.id. reflexivity. }
   rewrite E1. cbn [bind]. change (nd_set (s0 :: rest) 0 1) with (@Ok (list Z) (1 :: rest)). cbn [bind].
-  unfold positionAndExtentInData, positionInData.
-  assert (L : zlen (i :: zrepeat 0 (zlen rest)) = zlen (1 :: rest)).
-  { unfold zlen. cbn [List.length]. rewrite zrepeat_length. unfold zlen. lia. }
-  rewrite L, Z.eqb_refl. cbn [negb bind nd_add map].
-  assert (L2 : zlen (s0 :: rest) = zlen (u64_sub (u64_add i 1) 1 :: map (fun x => u64_sub x 1) (nd_add (zrepeat 0 (zlen rest)) rest))).
-  { unfold zlen. cbn [List.length]. f_equal. f_equal. rewrite map_length.
-    clear. induction rest as [|s rest IH]; [reflexivity|]. unfold zrepeat, zlen in *. cbn [List.length]. rewrite Nat2Z.id in *.
-    cbn [repeat nd_add List.length]. f_equal. exact IH. }
-  rewrite <- L2, Z.eqb_refl. cbn [negb all_lt]. rewrite (all_lt_pad rest Hrest), andb_true_r.
-  rewrite u64_add_small by lia. rewrite u64_sub_small by lia. replace (i + 1 - 1) with i by lia.
-  destruct (i <? s0) eqn:E; cbn [negb]; [|reflexivity].
-  unfold mkDataView. rewrite L. replace (zlen (1 :: rest) =? zlen (s0 :: rest)) with true by (unfold zlen; cbn [List.length]; lia).
-  cbn [negb nd_add any_gt]. rewrite u64_add_small by lia. rewrite (any_gt_pad rest Hrest).
-  replace (i + 1 >? s0) with false by lia. reflexivity.
+  unfold positionAndExtentInData.
+  assert (L1 : (zlen (s0 :: rest) =? zlen (i :: zrepeat 0 (zlen rest))) = true).
+  { apply Z.eqb_eq. unfold zlen. cbn [List.length]. rewrite zrepeat_length. unfold zlen. lia. }
+  assert (L2 : (zlen (s0 :: rest) =? zlen (1 :: rest)) = true) by (apply Z.eqb_eq; reflexivity).
+  rewrite L1, L2. cbn [negb orb extent_in_data]. rewrite (extent_in_data_pad rest Hrest), andb_true_r.
+  destruct (i <? s0) eqn:E.
+  - apply Z.ltb_lt in E. rewrite u64_sub_small by lia.
+    replace (1 <? 1) with false by lia. replace (i >=? s0) with false by lia. replace (1 >? s0 - i) with false by lia.
+    cbn [orb negb]. unfold mkDataView.
+    replace (zlen (i :: zrepeat 0 (zlen rest)) =? zlen (s0 :: rest)) with true by (symmetry; rewrite Z.eqb_sym; exact L1).
+    replace (zlen (1 :: rest) =? zlen (s0 :: rest)) with true by (symmetry; apply Z.eqb_eq; reflexivity).
+    cbn [negb view_outside]. rewrite u64_sub_small by lia.
+    rewrite (view_outside_whole rest ltac:(intros s Hs'; specialize (Hrest s Hs'); lia)).
+    replace (i >? s0) with false by lia. replace (1 >? s0 - i) with false by lia. reflexivity.
+  - apply Z.ltb_ge in E. replace (i >=? s0) with true by lia. rewrite orb_true_r. reflexivity.
 Qed.
 
 Theorem mtag_feature_indexed B mt f i m s0 rest :
